@@ -129,7 +129,7 @@ def run_view(P, nodes=None, regions=None, fmt=None):
     kw = dict(gaf_path=P.gaf_path, output=outp, nodes=list(nodes or []), regions=list(regions or []), format=fmt)
     if fmt:
         kw["gfa"] = P.gfa_path
-    out = fw.guarded(view.run, _trigger_s=5.0, _budget=2_000_000, **kw)
+    out = fw.guarded(view.run, _trigger_s=1.0, _budget=300_000, **kw)
     lines = []
     if os.path.exists(outp):
         lines = open(outp).read().split("\n")
